@@ -391,6 +391,33 @@ def library_membership(ctx, idx, rule, init):
             # `<module> == "<some name>" or <the test of the requested libraries>`: that module's commands come along whatever was asked for
             fixed = [v_ for v_ in cond.values if isinstance(v_, ast.Compare) and len(v_.ops) == 1 and isinstance(v_.ops[0], (ast.Eq, ast.In)) and isinstance(v_.left, ast.Attribute) and v_.left.attr in ("module", "__module__")
                      and isinstance(v_.comparators[0], (ast.Constant, ast.Tuple, ast.List, ast.Set)) and all(isinstance(c_, ast.Constant) for c_ in ([v_.comparators[0]] if isinstance(v_.comparators[0], ast.Constant) else v_.comparators[0].elts))]
+            # `<flag> and <module> == "<name>"` with <flag> = any(lib == "<name>" for lib in libraries) / "<name>" in libraries: that
+            # module is admitted exactly when it was requested by name - which the test of the requested libraries admits anyway
+            # (exact equality is one of its arms; the form of that test is decided below on what is left)
+            def _requested_only(v_):
+                if not (isinstance(v_, ast.BoolOp) and isinstance(v_.op, ast.And) and len(v_.values) == 2):
+                    return False
+                for a_, b_ in (v_.values, v_.values[::-1]):
+                    if isinstance(a_, ast.Name) and isinstance(b_, ast.Compare) and len(b_.ops) == 1 and isinstance(b_.ops[0], ast.Eq) and isinstance(b_.left, ast.Attribute) and b_.left.attr in ("module", "__module__") \
+                            and isinstance(b_.comparators[0], ast.Constant):
+                        cst = b_.comparators[0].value
+                        defs_ = [n_.value for n_ in own_nodes(init.node) if isinstance(n_, ast.Assign) and any(isinstance(t_, ast.Name) and t_.id == a_.id for t_ in n_.targets)]
+                        if len(defs_) != 1:
+                            return False
+                        d_ = defs_[0]
+                        if isinstance(d_, ast.Compare) and len(d_.ops) == 1 and isinstance(d_.ops[0], ast.In) and isinstance(d_.left, ast.Constant) and d_.left.value == cst and isinstance(d_.comparators[0], ast.Name):
+                            return True
+                        if isinstance(d_, ast.Call) and K.src(d_.func) == "any" and d_.args and isinstance(d_.args[0], (ast.GeneratorExp, ast.ListComp)) and not d_.args[0].generators[0].ifs \
+                                and isinstance(d_.args[0].generators[0].target, ast.Name) and isinstance(d_.args[0].generators[0].iter, ast.Name):
+                            el_ = d_.args[0].elt
+                            lv_ = d_.args[0].generators[0].target.id
+                            if isinstance(el_, ast.Compare) and len(el_.ops) == 1 and isinstance(el_.ops[0], ast.Eq) and {K.src(el_.left), K.src(el_.comparators[0])} == {lv_, repr(cst)}:
+                                return True
+                return False
+            rest_or = [v_ for v_ in cond.values if not _requested_only(v_)]
+            if len(rest_or) < len(cond.values) and len(rest_or) == 1:
+                cond = rest_or[0]
+                fixed = []
             if fixed:
                 ctx.violate(rule, con, K.rel(init), fixed[0].lineno, "`%s` selects the commands of a fixed module whether or not it was requested: what a program can use then depends on the classes the running script (or an earlier import) happened to define - `Program(libraries=())` is not empty, and a scratch class named like a library command makes the construction fail as 'duplicated'" % K.src(fixed[0]))
                 return comp
@@ -733,6 +760,17 @@ def run(ctx, idx):
     pm = prog.module
     for name, v in pm.consts.items():
         if isinstance(v, (ast.Dict, ast.List, ast.Set)) or (isinstance(v, ast.Call) and K.src(v.func) in ("dict", "list", "set", "OrderedDict", "defaultdict")):
+            # a cache of something else (parsed sources, say) is none of this property's business: it counts when a function on the
+            # lookup path - Program.__init__, find_command_class, add_command and what they call - touches it
+            users = [f_ for f_ in idx.funcs if f_.module is pm and any(isinstance(x_, ast.Name) and x_.id == name for x_ in ast.walk(getattr(f_, "node_orig", None) or f_.node))]
+            roots_ = [f_ for f_ in (init, idx.find_method(prog, "find_command_class"), idx.find_method(prog, "add_command")) if f_ is not None]
+            path_ = set()
+            for r_ in roots_:
+                path_ |= {id(x_) for x_ in K.helper_closure(idx, r_)} | {id(r_)}
+            on_path = [f_ for f_ in users if id(f_) in path_]
+            if users and not on_path:
+                ctx.hold("C19.c", "%s::module-cache(%s)" % (pm.rel, name), pm.rel, v.lineno, "module-level `%s` is used by %s only, none of which takes part in the command lookup" % (name, ", ".join(sorted(f_.qualname for f_ in users))[:80]), nontrivial=False)
+                continue
             ctx.violate("C19.c", "%s::module-cache(%s)" % (pm.rel, name), pm.rel, v.lineno, "module-level mutable `%s` in program.py can cache lookups across programs" % name)
     for c in [prog]:
         for name, v in c.attrs.items():
